@@ -70,6 +70,14 @@ func TdxValidate(ctx context.Context, attestation []byte, opts *TdxValidateOptio
 			return fmt.Errorf("failed to unmarshal endorsement: %v", err)
 		}
 	}
+	// The endorsement is untrusted input until its signature, certificate chain and validity at the
+	// caller's time have been checked against the caller's roots of trust.
+	if err := verify.EndorsementProto(endorsement, &verify.Options{
+		RootsOfTrust: opts.RootsOfTrust,
+		Now:          opts.Now,
+	}); err != nil {
+		return fmt.Errorf("failed to verify endorsement: %v", err)
+	}
 	policy, err := TdxPolicy(ctx, endorsement, &TdxPolicyOptions{
 		Base:      opts.BasePolicy,
 		Overwrite: opts.Overwrite,
